@@ -240,7 +240,7 @@ func (c *Ctx) featDist(cases []*RenderCase) {
 func c01(c *Ctx) {
 	c.Rep.TieObs = []string{"O-render: bytes written / error class of freshly generated, go-built code vs Exec on the parsed tree"}
 	c.Rep.Rule = "files of 3 layouts + N pages from the typed template grammar (every documented construct and syntactic variant), each template rendered under adversarial environments by real `go build` output and by the model; oracle: generator-intent document vs x/net/html tokens of the real bytes; distinct = distinct (template text, environment); non-trivial = every rendered template (each has at least one construct)"
-	o := gen.Opts{ObjRefs: true, ClassExprs: true, AttributesCmd: true, NonASCII: true, MaxDepth: 3, BlankLines: true, ShorthandElse: true, Switch: true, TrailingSpace: true}
+	o := gen.Opts{ObjRefs: true, ClassExprs: true, AttributesCmd: true, NonASCII: true, MaxDepth: 3, BlankLines: true, ShorthandElse: true, Switch: true, TrailingSpace: true, HexVerb: true}
 	cases := c.stdRenderCases(c.N(3, 40), 3, c.N(24, 40), c.N(6, 10), o)
 	c.renderBoth(cases)
 	c.featDist(cases)
